@@ -8,7 +8,7 @@ from .c01 import reply_ok
 
 ID = "C17"
 BUDGET = {"quick": 40, "thorough": 600}
-MAX_RUNS = {"quick": 1200, "thorough": 200000}
+MAX_RUNS = {"quick": 4000, "thorough": 200000}
 TECHNIQUE = "deterministic simulation: sequential and concurrent request streams against a load-balancing upstream whose members are separately observable; selection laws checked over the recorded upstream contacts"
 RULE = ("plans: loadbalance over 1-5 members (each its own observable fake upstream) x algorithm (rr, random, hashBy over request.source.host / request.target.host / "
         "request.listener / template concatenations) x request stream (sequential; concurrent bursts of k*n requests; 400 requests for random) x chaos and task-order "
